@@ -7,7 +7,7 @@ CONSTANT HsFirst = 2
 CONSTANT HsRest = 1
 CONSTANT MaxData = 1
 CONSTANT MaxBeacons = 1
-CONSTANT MaxQ = 1
+CONSTANT MaxQ = 2
 CONSTANT Variant = "code"
 CONSTANT Lenient = FALSE
 CONSTANT Snonce = "reuse"
